@@ -531,6 +531,93 @@ def main(repo, lean):
     if squash(v8) != "returnutf8_valid(begin,end,count);":
         raise Untranslatable("valid_utf8: shape")
 
+
+    # ---------------- src/form.cpp: widgets::base_text (count of code points vs limits)
+    fm = rd("src/form.cpp")
+    mc_ = re.search(r"base_text::base_text\s*\(\s*\)\s*:\s*([^{}]*)\{\s*\}", fm)
+    if not mc_:
+        raise Untranslatable("base_text::base_text(): initialiser list")
+    inits = dict()
+    for it in re.findall(r"(\w+)\s*\(\s*([^(),]*)\s*\)", mc_.group(1)):
+        inits[it[0]] = it[1].strip()
+    if set(inits) - {"low_", "high_", "validate_charset_", "code_points_"} or not {"low_", "high_", "validate_charset_"} <= set(inits):
+        raise Untranslatable("base_text::base_text(): unexpected members in the initialiser list: " + ",".join(sorted(inits)))
+    def intlit(v, what):
+        if not re.fullmatch(r"-?\d+", v):
+            raise Untranslatable(what + ": not an integer literal: " + v)
+        return f"({v} : Int)"
+    if inits["validate_charset_"] not in ("true", "false"):
+        raise Untranslatable("base_text ctor: validate_charset_")
+    w("namespace Form")
+    w("/-- `size_t(x)` for an `int x` (64-bit `size_t`) -/")
+    w("def toSizeT (x : Int) : Int := x % 18446744073709551616")
+    w("/-- constructor initialiser list of `widgets::base_text`; `ctorCount = none`: `code_points_` is left uninitialised -/")
+    w(f"def ctorLow : Int := {intlit(inits['low_'], 'ctor low_')}")
+    w(f"def ctorHigh : Int := {intlit(inits['high_'], 'ctor high_')}")
+    w(f"def ctorValidateCharset : Bool := {inits['validate_charset_']}")
+    if "code_points_" in inits:
+        if not re.fullmatch(r"\d+", inits["code_points_"]):
+            raise Untranslatable("base_text ctor: code_points_ initialiser")
+        w(f"def ctorCount : Option Nat := some {inits['code_points_']}")
+    else:
+        w("def ctorCount : Option Nat := none")
+    lb = squash(find_fn(fm, r"void\s+base_text::load\s*\(\s*http::context\s*&\s*context\s*\)\s*\{", "base_text::load"))
+    cut = "if(name().empty()){return;}"
+    if lb.count(cut) != 1:
+        raise Untranslatable("base_text::load: `if(name().empty()) return;` not found exactly once")
+    prefix, rest = lb.split(cut)
+    eff = {"pre_load(context)": "preload", "value_.clear()": "clear", "set(true)": "set1", "set(false)": "set0",
+           "valid(true)": "valid1", "valid(false)": "valid0"}
+    seen = []
+    cnt_reset = None
+    for st in [x for x in prefix.split(";") if x]:
+        mm = re.fullmatch(r"code_points_=(\d+)", st)
+        if mm:
+            cnt_reset = int(mm.group(1))
+        elif st in eff:
+            seen.append(eff[st])
+        else:
+            raise Untranslatable("base_text::load: statement before the name test not understood: " + st)
+    if "preload" not in seen or ("set1" in seen and "set0" in seen) or ("valid1" in seen and "valid0" in seen):
+        raise Untranslatable("base_text::load: prefix statements")
+    w("/-- straight-line part of `base_text::load` before the field is looked up: which members it assigns.")
+    w("`none` = the member keeps whatever an earlier request left in it. -/")
+    w(f"def loadClearsValue : Bool := {'true' if 'clear' in seen else 'false'}")
+    w(f"def loadResetCount : Option Nat := {'none' if cnt_reset is None else 'some ' + str(cnt_reset)}")
+    w("def loadMarksSet : Option Bool := " + ("some true" if "set1" in seen else "some false" if "set0" in seen else "none"))
+    w("def loadMarksValid : Option Bool := " + ("some true" if "valid1" in seen else "some false" if "valid0" in seen else "none"))
+    mr = re.fullmatch(re.escape("http::request::form_type::const_iteratorp;p=context.request().post_or_get().find(name());"
+                                "if(p==context.request().post_or_get().end()){return;}value_=p->second;if(validate_charset_){") +
+                      r"(?:code_points_=(\d+);)?" +
+                      re.escape("if(!encoding::valid(context.locale(),value_.data(),value_.data()+value_.size(),code_points_))valid(false);}"
+                                "else{code_points_=value_.size();}"), rest)
+    if not mr:
+        raise Untranslatable("base_text::load: part after the name test differs from the expected template: " + rest[:160])
+    w("/-- value of `code_points_` handed to `encoding::valid` (which adds to it); `none` = not reassigned before the call -/")
+    w("def loadCountBeforeValid : Option Nat := " + ("none" if mr.group(1) is None else "some " + mr.group(1)))
+    vb = find_fn(fm, r"bool\s+base_text::validate\s*\(\s*\)\s*\{", "base_text::validate")
+    vb = re.sub(r"-\s*1\b", "MINUS1", vb)
+    h = template_match("base_text::validate", vb,
+                       "if(!valid())returnfalse;if(«early»){valid(true);returntrue;}if(«oor»){valid(false);returnfalse;}returntrue;")
+    ren = {"MINUS1": "(-1)"}
+    F2 = {"set": "isSet", "size_t": "toSizeT"}
+    w("/-- `base_text::validate`: the early-accept test and the out-of-limits test -/")
+    w(f"def validateEarlyOk (isSet : Bool) (low_ high_ : Int) : Bool := {c_to_lean(h['early'], rename=dict(ren, **{'(isSet)': 'isSet'}), funcs=F2)}")
+    w(f"def validateOutOfLimits (code_points_ low_ high_ : Int) : Bool := {c_to_lean(h['oor'], rename=ren, funcs=F2)}")
+    for sig, body_expected, what in (
+            (r"void\s+base_text::value\s*\(\s*std::string\s+v\s*\)\s*\{", "set(true);value_=v;", "base_text::value(std::string)"),
+            (r"void\s+base_widget::clear\s*\(\s*\)\s*\{", "set(false);", "base_widget::clear"),
+            (r"void\s+base_text::limits\s*\(\s*int\s+min\s*,\s*int\s+max\s*\)\s*\{", "low_=min;high_=max;", "base_text::limits(int,int)"),
+            (r"void\s+base_text::validate_charset\s*\(\s*bool\s+v\s*\)\s*\{", "validate_charset_=v;", "base_text::validate_charset(bool)")):
+        if squash(find_fn(fm, sig, what)) != body_expected:
+            raise Untranslatable(what + ": shape")
+    ne = squash(find_fn(fm, r"void\s+base_text::non_empty\s*\(\s*\)\s*\{", "base_text::non_empty"))
+    mn = re.fullmatch(r"limits\((-?\d+),(-?\d+)\);", ne)
+    if not mn:
+        raise Untranslatable("base_text::non_empty: shape")
+    w(f"def nonEmptyLow : Int := ({mn.group(1)} : Int)")
+    w(f"def nonEmptyHigh : Int := ({mn.group(2)} : Int)")
+    w("end Form\n")
     w("end Cppcms.C14.Gen")
     path = os.path.join(lean, "Cppcms", "C14", "Gen.lean")
     changed = write_if_changed(path, "\n".join(o) + "\n")
